@@ -121,6 +121,10 @@ pub trait Prop: Sync + Send + 'static {
     fn max_shrink_iters(&self) -> u32 {
         4000
     }
+    /// wall budget for shrinking one failure
+    fn shrink_budget(&self) -> Duration {
+        Duration::from_secs(12)
+    }
     /// extra sections for the evidence file computed after the run
     fn extra_evidence(&self, _tier: Tier) -> Option<Value> {
         None
@@ -532,9 +536,21 @@ fn run_worker<P: Prop>(
     let mut runner = TestRunner::new(config);
     let strategy = prop.strategy(tier);
     let first_sig: RefCell<Option<String>> = RefCell::new(None);
+    let shrink_started: RefCell<Option<Instant>> = RefCell::new(None);
+    let shrink_budget = prop.shrink_budget();
     let stats_cell = RefCell::new(&mut stats);
     let result = runner.run(&strategy, |case| {
         let searching = first_sig.borrow().is_none();
+        if !searching {
+            // bounded shrinking: past the budget every candidate "passes", so the runner
+            // settles on the smallest failing case found so far
+            let started = *shrink_started.borrow();
+            match started {
+                None => *shrink_started.borrow_mut() = Some(Instant::now()),
+                Some(t0) if t0.elapsed() > shrink_budget => return Ok(()),
+                _ => {}
+            }
+        }
         set_current(&case);
         let mut scratch = BTreeMap::new();
         let (out, unlisted) = {
